@@ -492,7 +492,7 @@ def check(ctx):
         st10 = pm10[st10]
     cond10 = norm(_pc10(oa.node, st10, pm10))
     base10 = norm(idx10[0].value)
-    guarded = any(g in cond10 for g in (f"and {base10}", f"({base10})", f"len({base10})")) or cond10.endswith(base10) or cond10 == base10
+    guarded = any(g in cond10 for g in (f"and {base10}", f"({base10})", f"len({base10})", f"({base10} := ")) or cond10.endswith(base10) or cond10 == base10
     ctx.check(guarded, "C18.R10", "to_open_api_3_0:examples", None, f"`{short(idx10[0], 40)}` is evaluated under `{cond10}` only: with `schema(examples=[])` the key is present and the list empty - IndexError out of deserialization_schema(..., version=OPEN_API_3_0)", oa, st10, detail="first example taken only from a non-empty list")
 
     # ---------------- R9: enumerated values are kept
@@ -545,7 +545,13 @@ def check(ctx):
     conv = jv.methods.get("conversion")
     ctx.require(conv is not None, "JsonSchemaVersion.conversion vanished")
     t = norm(conv.node)
-    selfref = "sub_conversion=LazyConversion(lambda: tmp)" in t and "tmp = conversion" in t and "Conversion(self.serialization" in t
+    # the lazy sub-conversion returns a variable that ends up holding the Conversion itself (directly, or through a second name)
+    lam_names = {l_.body.id for c_ in ast.walk(conv.node) if isinstance(c_, ast.Call) and (dotted(c_.func) or "").endswith("LazyConversion") and c_.args
+                 for l_ in [c_.args[0]] if isinstance(l_, ast.Lambda) and isinstance(l_.body, ast.Name)}
+    conv_names = {norm(a_.targets[0]) for a_ in ast.walk(conv.node) if isinstance(a_, ast.Assign) and isinstance(a_.value, ast.Call) and (dotted(a_.value.func) or "") == "Conversion"
+                  and a_.value.args and norm(a_.value.args[0]) == "self.serialization" and any(k_.arg == "sub_conversion" for k_ in a_.value.keywords)}
+    alias_names = {norm(a_.targets[0]) for a_ in ast.walk(conv.node) if isinstance(a_, ast.Assign) and isinstance(a_.value, ast.Name) and a_.value.id in conv_names}
+    selfref = bool(lam_names) and lam_names <= (conv_names | alias_names) and "Conversion(self.serialization" in t
     ctx.check(selfref, "C18.R3", conv.qualname, conv.node.body[0], "the version conversion is no longer self-referential: nested schemas would not be converted", conv, conv.node, detail="Conversion(self.serialization, sub_conversion=<lazy self>)")
     for site in (f"{SMOD}._schema", f"{SMOD}.definitions_schema"):
         fi = model.func(site)
